@@ -93,7 +93,10 @@ def run(job):
                (cur["USD"], 1, cur["EUR"], Decimal("0.0000009")),
                (cur["USD"], 1, cur["EUR"], Fraction(1, 10 ** 7)),
                (cur["USD"], 1, cur["EUR"], "abc"), (cur["USD"], "x", cur["EUR"], 1),
-               ("USD", 1, "USD", 1), ("ZZZ", 1, cur["EUR"], 1), (1, 1, cur["EUR"], 1)]
+               ("USD", 1, "USD", 1), ("ZZZ", 1, cur["EUR"], 1), (1, 1, cur["EUR"], 1),
+               # the same currency given once as object and once as ISO code
+               ("USD", 1, cur["USD"], 1), (cur["EUR"], 1, "EUR", 5),
+               ("EUR", 100, cur["EUR"], Decimal("1.5"))]
         for args in bad:
             try:
                 r = ExchangeRate(*args)
